@@ -52,7 +52,7 @@ def dkName : DK → String
 def tvarJson (t : TVar) : Json :=
   jObj [("kind", .str (match t.var.kind with | .cat => "cat" | .arr => "arr")),
         ("n", jNat t.var.n), ("catMissing", jBools t.var.catMissing), ("isMR", .bool t.var.isMR),
-        ("transposed", .bool t.transposed), ("itemPos", jNats t.itemPos)]
+        ("transposed", .bool t.transposed), ("itemPos", jNats t.itemPos), ("nItems", jNat t.nItems)]
 
 def tvarsJson (l : List TVar) : Json := .arr (l.map tvarJson).toArray
 
@@ -75,10 +75,8 @@ def opDims : Handler := fun j => do
     ("apparent", rJson (fun ds => typesJson ((apparent ds).map (·.dt))) fd),
     ("decode", rJson tvarsJson (decodeDims dicts))])
 
-def ordOf (j : Json) : Except String (List String) :=
-  match j.getObjVal? "ord" with
-  | .ok v => do (← getList v).mapM (·.getStr?)
-  | .error _ => pure numericMeasures
+/-- the order in which the library lists the numeric measures: declaration order (fix F40) -/
+def ordOf (_ : Json) : Except String (List String) := pure numericMeasures
 
 def cubeIdxOf (j : Json) : Option Nat :=
   match j.getObjVal? "cube_idx" with
@@ -196,7 +194,7 @@ def opAugment : Handler := fun j => do
   let resp := jOfJson (← getField j "resp")
   let summary := jOfJson (← getField j "summary")
   pure (jObj [("result", rJson (fun o => match o with | some d => jToJson d | none => .str "self")
-                (augmentDict summary resp))])
+                (augmentDict loads summary resp))])
 
 /-- op `glue_cubeset` -/
 def opCubeSet : Handler := fun j => do
